@@ -624,6 +624,13 @@ def native_search(E, con, fi, seed=0, budget_s=8.0, max_samples=400):
 
 
 def _describe(v, depth=0):
+    try:
+        return _describe_(v, depth)
+    except Exception as ex:  # noqa  (describing an input must never fail the run: a real object's own __repr__ may be broken on a changed tree)
+        return "<%s: cannot be described (%s)>" % (type(v).__name__, type(ex).__name__)
+
+
+def _describe_(v, depth=0):
     if isinstance(v, (int, float, str, bool)) or v is None:
         return repr(v)
     if isinstance(v, (list, tuple)):
